@@ -13,6 +13,34 @@ if REPO not in sys.path:
 os.environ.setdefault("PYTHONHASHSEED", "0")
 
 
+class HangError(BaseException):
+    """a replayed call into the library did not return within the per-case time limit"""
+
+
+CASE_LIMIT_S = int(os.environ.get("VERIF_CASE_LIMIT_S", "300"))
+
+
+def _alarm(signum, frame):
+    raise HangError("no progress for %d s while replaying a case" % CASE_LIMIT_S)
+
+
+def arm_watchdog():
+    import signal
+    try:
+        signal.signal(signal.SIGALRM, _alarm)
+        signal.alarm(CASE_LIMIT_S)
+    except (ValueError, AttributeError):
+        pass
+
+
+def disarm_watchdog():
+    import signal
+    try:
+        signal.alarm(0)
+    except (ValueError, AttributeError):
+        pass
+
+
 class MachineryError(Exception):
     """Something in the verification machinery itself failed (exit 2, never a property verdict)."""
 
@@ -171,6 +199,7 @@ def run_tlc(module, cfg, env=None, workers=None, timeout=3600, simulate=None, ex
     """Run TLC on spec/<module>.tla with spec/<cfg>; returns TLCResult (cases = decoded PrintT lines).
     overrides: {constant: value text} replaces `constant = ...` lines of the configuration (written to the scratch directory)."""
     workers = workers or NCPU
+    disarm_watchdog()               # (TLC runs have their own timeout)
     if overrides:
         extra = list(extra or []) + ["--overrides--"] + ["%s=%s" % kv for kv in sorted(overrides.items())]
     # Diagnostic campaigns (tools/mutants.py) replay the SAME specification output into many variants of the code: the output of a
@@ -288,6 +317,8 @@ class Ctx:
     @full.setter
     def full(self, value):
         self._full = value
+        if not self.replay_mode or value is not None:
+            arm_watchdog()          # a case starts: the replay of one case takes far less than CASE_LIMIT_S on any tree that terminates
         if not self.second_pass and not self.replay_mode and isinstance(value, dict) and (not self.seen_full or self.seen_full[-1] is not value):
             self.seen_full.append(value)
 
